@@ -102,23 +102,21 @@ Section TraceProofs.
     - inversion H; subst. exact E.
   Qed.
 
-  Lemma suppressed_unchanged last v : suppressed equiv last v = true -> unchanged m_eqb equiv last v = true.
-  Proof. unfold suppressed, unchanged. destruct equiv; [auto|discriminate]. Qed.
+  Lemma suppressed_unchanged base last v : suppressed equiv last v = true -> unchanged m_eqb equiv base last v = true.
+  Proof. unfold suppressed, unchanged. destruct equiv; [intros H; rewrite H; reflexivity|discriminate]. Qed.
 
   (* the model's deliveries are accepted by the property's stream clause *)
-  Lemma accepts_fwd ups : forall last last',
-    (equiv <> None -> last' = last) -> accepts m_eqb equiv last' ups (fwd last ups) = true.
+  Lemma accepts_fwd ups : forall base last, accepts m_eqb equiv base last ups (fwd last ups) = true.
   Proof.
-    induction ups as [|v r IH]; intros last last' Hl; [reflexivity|]. cbn [fwd].
+    induction ups as [|v r IH]; intros base last; [reflexivity|]. cbn [fwd].
     destruct (suppressed equiv last v) eqn:Es.
-    - assert (He : equiv <> None) by (unfold suppressed in Es; destruct equiv; [discriminate|discriminate]).
-      rewrite (Hl He) in *. cbn [accepts].
+    - cbn [accepts].
       destruct (fwd last r) as [|o obs'] eqn:Ef.
-      + rewrite (suppressed_unchanged _ _ Es). rewrite <- Ef. apply IH. auto.
+      + rewrite (suppressed_unchanged base _ _ Es). rewrite <- Ef. apply IH.
       + destruct (m_eqb o v) eqn:Eo.
         * apply m_eqb_eq in Eo. subst o. rewrite (fwd_head _ _ Ef) in Es. discriminate.
-        * rewrite (suppressed_unchanged _ _ Es). rewrite <- Ef. apply IH. auto.
-    - cbn [accepts]. rewrite m_eqb_refl. apply IH. auto.
+        * rewrite (suppressed_unchanged base _ _ Es). rewrite <- Ef. apply IH.
+    - cbn [accepts]. rewrite m_eqb_refl. apply IH.
   Qed.
 
   (* ---- streams: how the events a stream accumulates relate to [since] ---- *)
@@ -318,10 +316,10 @@ Section TraceProofs.
         by (destruct cancelled; reflexivity).
       rewrite Hstat. cbn [andb].
       destruct uo.
-      + cbn [app]. apply accepts_fwd. intros He. destruct equiv; [reflexivity|congruence].
+      + cbn [app]. apply accepts_fwd.
       + destruct (option_map (pm f k) cur') as [c|]; cbn [app].
-        * rewrite m_eqb_refl. cbn [andb]. apply accepts_fwd. auto.
-        * apply accepts_fwd. auto.
+        * rewrite m_eqb_refl. cbn [andb]. apply accepts_fwd.
+        * apply accepts_fwd.
     - assert (Hh : handler_sent st2 = []) by (unfold GenericServer.handler_sent; rewrite Hr; reflexivity).
       rewrite Hh. unfold stream_status. rewrite Hr. reflexivity.
   Qed.
